@@ -565,7 +565,8 @@ def check_C07(chk):
     c07c(chk)
     c07d(chk)
     c07e(chk)
-    for r, n in (("C07.a", 3), ("C07.b", 5), ("C07.c", 5), ("C07.d", 4), ("C07.e", 4)):
+    c07f(chk)
+    for r, n in (("C07.a", 3), ("C07.b", 5), ("C07.c", 5), ("C07.d", 4), ("C07.e", 5), ("C07.f", 6)):
         chk.floor(r, n)
 
 
@@ -715,6 +716,64 @@ def c07c(chk):
     chk.ob("C07.c", "text-values/printed-with-requested-precision", ok, fsn.loc() if fsn else "", "every value is printed as `{x:.precision$}` with nothing around it (first and following values alike)")
 
 
+def c07f(chk):
+    """the requested precision reaches the format spec unmodified"""
+    prog = chk.prog
+    fs = chk.fn(TEXT + "format_spectrum")
+    ws = chk.fn(TEXT + "write_spectrum")
+    bw = chk.fn(WRITE_BUILDER_WRITE)
+    if fs is not None:
+        bodies = [fs] + prog.closures_of(fs.path)
+        n = 0
+        bad = []
+        for g in bodies:
+            for b, t in g.calls():
+                if (t["callee"].get("path") or "") == "core::fmt::rt::Argument::<'_>::from_usize":
+                    n += 1
+                    sl, info = g.slice_locals(t["args"][0], through_calls=False)
+                    if info["binops"] or info["calls"]:
+                        bad.append(g.loc(b))
+                    # root: parameter 3 of format_spectrum (or the closure's capture of it)
+                    if g is fs:
+                        if 3 not in sl:
+                            bad.append(g.loc(b) + " (not the precision parameter)")
+                    else:
+                        caps = an.closure_captures(fs, g.path) or []
+                        if not any(c is not None and c[0] == 3 for c in caps):
+                            bad.append(g.loc(b) + " (closure does not capture the precision parameter)")
+        chk.ob("C07.f", "format_spectrum/precision-argument-is-the-parameter", n == 2 and not bad, fs.loc(), "`{x:.precision$}` takes its precision from the function's parameter, unmodified, at both sites (%d sites, problems %s)" % (n, bad))
+    if ws is not None:
+        cs = an.calls(ws, TEXT + "format_spectrum")
+        ok = len(cs) == 1 and op_local(cs[0][1]["args"][2]) is not None and ws.copy_root(op_local(cs[0][1]["args"][2])) == 3 and not [rv for _, _, _, rv, _ in ws.assigns() if rv["k"] == "binop"]
+        others = [callee_name(t["callee"]) for b, t in ws.calls() if "min" in callee_name(t["callee"]).split("::")[-1] or "clamp" in callee_name(t["callee"]) or "max" == callee_name(t["callee"]).split("::")[-1]]
+        chk.ob("C07.f", "write_spectrum/precision-forwarded", ok and not others, ws.loc(), "write_spectrum forwards its precision parameter to format_spectrum unmodified (clamping calls: %s)" % others)
+    if bw is not None:
+        cs = an.calls(bw, TEXT + "write_spectrum")
+        ok = False
+        if len(cs) == 1:
+            sl, info = bw.slice_locals(cs[0][1]["args"][2], through_calls=False)
+            ok = ("sfs_core::spectrum::io::write::Builder", "precision") in info["fields"] and not info["binops"]
+        chk.ob("C07.f", "write::Builder::write/precision-field-forwarded", ok, bw.loc(), "the builder hands its precision field to the text writer unmodified")
+    sp = chk.fn("sfs_core::spectrum::io::write::Builder::set_precision")
+    if sp is not None:
+        ok = False
+        for b, i, p, rv, s in sp.assigns():
+            cp = sp.canon(p)
+            if an.owned_self_field(cp) == "precision" and rv["k"] == "use" and op_local(rv["op"]) is not None and sp.copy_root(op_local(rv["op"])) == 2:
+                ok = True
+        chk.ob("C07.f", "set_precision/stores-argument", ok and not list(sp.calls()), sp.loc(), "set_precision stores its argument")
+    for path, fld in (("sfs::view::View::run", "precision"), ("sfs::fold::Fold::run", "precision")):
+        f = chk.fn(path)
+        if f is None:
+            continue
+        cs = an.calls(f, "sfs_core::spectrum::io::write::Builder::set_precision")
+        ok = False
+        if len(cs) == 1:
+            sl, info = f.slice_locals(cs[0][1]["args"][1], through_calls=False)
+            ok = any(fl == fld for (a_, fl) in info["fields"]) and not info["binops"]
+        chk.ob("C07.f", "%s/--precision->set_precision" % path.split("::")[-2], ok, f.loc(), "the CLI option is handed to the writer unmodified")
+
+
 def c07d(chk):
     prog = chk.prog
     adt = prog.adts.get(IOFMT)
@@ -791,6 +850,24 @@ def c07e(chk):
         full = [t for b, t in r.calls() if callee_is(t["callee"], N.INDEX) and "RangeFull" in " ".join(t["callee"].get("args", []))]
         chk.ob("C07.e", "read::Builder::read/whole-input-then-detect", len(rte) == 2 and same and bool(det) and len(full) >= 1, r.loc(),
                "both transports read_to_end into one buffer; detection and parsing see the complete slice")
+        # nothing else touches the buffer between reading and parsing (no trimming, truncation, sub-slicing)
+        touch = []
+        if raw is not None:
+            for b, t in r.calls():
+                for a in t["args"]:
+                    l = op_local(a)
+                    tgt = r.resolve_ptr(l) if l is not None else None
+                    if (tgt is not None and tgt[0] == raw) or (l is not None and r.copy_root(l) == raw):
+                        nm = callee_name(t["callee"])
+                        if callee_is(t["callee"], "std::io::Read::read_to_end"):
+                            continue
+                        if callee_is(t["callee"], N.INDEX) and "RangeFull" in " ".join(t["callee"].get("args", [])):
+                            continue
+                        if callee_is(t["callee"], N.DEREF):
+                            continue
+                        touch.append(nm)
+        chk.ob("C07.e", "read::Builder::read/buffer-untouched-before-parsing", not touch, r.loc(),
+               "the bytes read are handed to detection and to the reader as they are; other operations on the buffer: %s" % touch)
 
 
 # ====================================================================================
@@ -1048,7 +1125,7 @@ def check_C18(chk):
             o["id"] = "C18.d/" + o["key"]
     chk.rule_counts["C18.d"] = chk.rule_counts.pop("C07.e", 0)
     c18e(chk)
-    for r, n in (("C18.a", 7), ("C18.b", 100), ("C18.c", 3), ("C18.d", 4), ("C18.e", 1)):
+    for r, n in (("C18.a", 7), ("C18.b", 100), ("C18.c", 3), ("C18.d", 5), ("C18.e", 1)):
         chk.floor(r, n)
 
 
